@@ -19,92 +19,85 @@ theorem all_filterMap_id {items : List (Option Nat)} {n : Nat}
   have hm : s ∈ items.filterMap id := List.mem_filterMap.mpr ⟨some s, hs, rfl⟩
   simpa using List.all_eq_true.mp h s hm
 
-theorem exec_wstep {w w' : World} {op : Op} (h : w.exec op = .ok w') :
-    WStep (op.ids.all (· < w.nS) = true ∧ op.units.all (· < w.nU) = true) w w' := by
+/-- operations that create streams (everything else creates placeholders only) -/
+def Op.creates : Op → Bool
+  | .newStream => true
+  | .newUnit _ _ _ _ _ _ => true
+  | _ => false
+
+theorem exec_wstepR {w w' : World} {op : Op} (h : w.exec op = .ok w') (hop : op.creates = false) :
+    WStepR (op.ids.all (· < w.nS) = true ∧ op.units.all (· < w.nU) = true) w w' := by
   cases op with
-  | newStream =>
-    simp only [World.exec] at h; cases h
-    exact (newStream_wstep w).weaken (fun _ _ => trivial)
-  | newUnit ni fi ai no fo ao =>
-    simp only [World.exec] at h
-    cases hr : w.newUnit ni fi ai no fo ao with
-    | error e => simp [Except.map, hr] at h
-    | ok p =>
-      obtain ⟨w2, u⟩ := p
-      simp only [Except.map, hr, Except.ok.injEq] at h
-      subst h
-      refine (newUnit_wstep hr).weaken (fun hc _ => ?_)
-      have := hc.1
-      simp only [Op.ids, List.all_append, Bool.and_eq_true, List.all_eq_true, decide_eq_true_eq] at this
-      exact this
+  | newStream => simp [Op.creates] at hop
+  | newUnit ni fi ai no fo ao => simp [Op.creates] at hop
   | set k u i s =>
     cases s with
     | some s =>
       simp only [World.exec] at h
-      refine (on_wstep (fun _ => setStream_step) h).weaken (fun hc _ => ?_)
+      refine (on_wstepR (fun _ => setStream_step) h).weaken (fun hc _ => ?_)
       simpa [Op.ids, Op.units] using hc
     | none =>
       simp only [World.exec] at h
-      refine (on_wstep (fun _ hx => setNone_step hx) h).weaken (fun hc _ => ?_)
+      refine (on_wstepR (fun _ hx => setNone_step hx) h).weaken (fun hc _ => ?_)
       simpa [Op.ids, Op.units] using hc
   | slice k u a b items =>
     simp only [World.exec] at h
-    refine (on_wstep (fun _ => setStreams_step) h).weaken (fun hc _ => ?_)
+    refine (on_wstepR (fun _ => setStreams_step) h).weaken (fun hc _ => ?_)
     exact ⟨by simpa using all_filterMap_id hc.1, by simpa [Op.units] using hc.2⟩
   | sliceAll k u items =>
     simp only [World.exec] at h
-    refine (on_wstep (fun _ => setStreams_step) h).weaken (fun hc _ => ?_)
+    refine (on_wstepR (fun _ => setStreams_step) h).weaken (fun hc _ => ?_)
     exact ⟨by simpa using all_filterMap_id hc.1, by simpa [Op.units] using hc.2⟩
   | insert k u i s =>
     simp only [World.exec] at h
-    refine (on_wstep (fun _ => insertAt_step) h).weaken (fun hc _ => ?_)
+    refine (on_wstepR (fun _ => insertAt_step) h).weaken (fun hc _ => ?_)
     simpa [Op.ids, Op.units] using hc
   | append k u s =>
     simp only [World.exec] at h
-    refine (on_wstep (fun _ => append_step) h).weaken (fun hc _ => ?_)
+    refine (on_wstepR (fun _ => append_step) h).weaken (fun hc _ => ?_)
     simpa [Op.ids, Op.units] using hc
   | extend k u ss =>
     simp only [World.exec] at h
-    refine (on_wstep (fun _ => extend_step) h).weaken (fun hc _ => ?_)
+    refine (on_wstepR (fun _ => extend_step) h).weaken (fun hc _ => ?_)
     simpa [Op.ids, Op.units] using hc
   | replace k u s t =>
     cases t with
     | some t =>
       simp only [World.exec] at h
-      refine (on_wstep (fun _ => replace_step) h).weaken (fun hc _ => ?_)
+      refine (on_wstepR (fun _ => replace_step) h).weaken (fun hc _ => ?_)
       have := hc
       simp [Op.ids, Op.units] at this
       simpa using ⟨this.1.2, this.2⟩
     | none =>
       simp only [World.exec] at h
-      refine (on_wstep (fun _ hx => replaceNone_step hx) h).weaken (fun hc _ => ?_)
+      refine (on_wstepR (fun _ hx => replaceNone_step hx) h).weaken (fun hc _ => ?_)
       simpa [Op.ids, Op.units] using hc.2
   | pop k u i =>
     simp only [World.exec] at h
     obtain ⟨⟨sw, s⟩, hp, h⟩ := bind_ok.mp h
     cases h
-    refine (put_good (pop_step hp)).weaken (fun hc _ => ?_)
+    refine (put_goodR (pop_step hp)).weaken (fun hc _ => ?_)
     simpa [Op.ids, Op.units] using hc.2
   | remove k u s =>
     simp only [World.exec] at h
-    refine (on_wstep (fun _ => remove_step) h).weaken (fun hc _ => ?_)
+    refine (on_wstepR (fun _ => remove_step) h).weaken (fun hc _ => ?_)
     simpa [Op.ids, Op.units] using hc.2
   | clear k u =>
     simp only [World.exec] at h
-    refine (on_wstep (A := u < w.nU) (fun _ hx => by cases hx; exact clear_step _ u) h).weaken
+    refine (on_wstepR (A := u < w.nU) (fun _ hx => by cases hx; exact clear_step _ u) h).weaken
       (fun hc _ => ?_)
     simpa [Op.ids, Op.units] using hc.2
   | empty k u =>
     simp only [World.exec] at h
-    refine (on_wstep (A := u < w.nU) (fun _ hx => by cases hx; exact empty_step _ u) h).weaken
+    refine (on_wstepR (A := u < w.nU) (fun _ hx => by cases hx; exact empty_step _ u) h).weaken
       (fun hc _ => ?_)
     simpa [Op.ids, Op.units] using hc.2
   | dsrc s =>
     simp only [World.exec] at h
-    exact (on_wstep (fun _ => disconnect_step) h).weaken (fun _ _ => trivial)
+    exact (on_wstepR (fun _ => disconnect_step) h).weaken (fun _ _ => trivial)
   | dsnk s =>
     simp only [World.exec] at h
-    exact (on_wstep (fun _ => disconnect_step) h).weaken (fun _ _ => trivial)
+    exact (on_wstepR (fun _ => disconnect_step) h).weaken (fun _ _ => trivial)
   | disc s =>
     simp only [World.exec] at h
     exact (disconnectStream_wstep h).weaken (fun _ _ => trivial)
@@ -149,10 +142,69 @@ theorem exec_wstep {w w' : World} {op : Op} (h : w.exec op = .ok w') :
     · intro a ha; subst ha; exact h1.2.2 a (by simp [PortRef.ids])
   | pipeUU u v =>
     simp only [World.exec] at h
-    refine (on_wstep (fun _ => setStreams_step) h).weaken (fun hc hG => ?_)
+    refine (on_wstepR (fun _ => setStreams_step) h).weaken (fun hc hG => ?_)
     have := hc.2
     simp [Op.units] at this
     exact ⟨by simpa using items_map_some (fun s hs => hG.outs_lt hs), this.2⟩
+  | setBack k u j s =>
+    cases s with
+    | some s =>
+      simp only [World.exec] at h
+      split at h
+      · refine (on_wstepR (fun _ => setStream_step) h).weaken (fun hc _ => ?_)
+        simpa [Op.ids, Op.units] using hc
+      · cases h
+    | none =>
+      simp only [World.exec] at h
+      split at h
+      · refine (on_wstepR (fun _ hx => setNone_step hx) h).weaken (fun hc _ => ?_)
+        simpa [Op.ids, Op.units] using hc
+      · cases h
+  | popBack k u j =>
+    simp only [World.exec] at h
+    split at h
+    · obtain ⟨⟨sw, s⟩, hp, h⟩ := bind_ok.mp h
+      cases h
+      refine (put_goodR (pop_step hp)).weaken (fun hc _ => ?_)
+      simpa [Op.ids, Op.units] using hc.2
+    · cases h
+  | setOwner u v =>
+    simp only [World.exec] at h; cases h
+    exact (setOwner_wstep w _).weaken (fun _ _ => trivial)
+  | portFrom k x s =>
+    simp only [World.exec] at h
+    refine (portFrom_wstep h).weaken (fun hc _ => ?_)
+    have := hc.1
+    simp [Op.ids] at this
+    exact this.2
+  | streamPorts k xs ss =>
+    simp only [World.exec] at h
+    refine (streamPorts_wstep h).weaken (fun hc _ s hs => ?_)
+    have := hc.1
+    simp only [Op.ids, List.all_append, Bool.and_eq_true, List.all_eq_true, decide_eq_true_eq] at this
+    exact this.2 s hs
+
+theorem exec_wstep {w w' : World} {op : Op} (h : w.exec op = .ok w') :
+    WStep (op.ids.all (· < w.nS) = true ∧ op.units.all (· < w.nU) = true) w w' := by
+  by_cases hop : op.creates = false
+  · exact (exec_wstepR h hop).toWStep
+  · cases op with
+    | newStream =>
+      simp only [World.exec] at h; cases h
+      exact (newStream_wstep w).weaken (fun _ _ => trivial)
+    | newUnit ni fi ai no fo ao =>
+      simp only [World.exec] at h
+      cases hr : w.newUnit ni fi ai no fo ao with
+      | error e => simp [Except.map, hr] at h
+      | ok p =>
+        obtain ⟨w2, u⟩ := p
+        simp only [Except.map, hr, Except.ok.injEq] at h
+        subst h
+        refine (newUnit_wstep hr).weaken (fun hc _ => ?_)
+        have := hc.1
+        simp only [Op.ids, List.all_append, Bool.and_eq_true, List.all_eq_true, decide_eq_true_eq] at this
+        exact this
+    | _ => simp [Op.creates] at hop
 
 /-! ## What fills a vacated port -/
 
